@@ -9,8 +9,8 @@
    selection.  The index-level theorems hold for every index that describes the points. *)
 From Coq Require Import List ZArith NArith Bool.
 From TF Require Import Base Query Index DB Spec proofs.IndexDefs proofs.RepP proofs.DBReadP proofs.DBRemoveP
-     proofs.DBStepP proofs.DBRunP proofs.DBSpecP proofs.GetterP proofs.LawsP IndexSem proofs.IndexGenP proofs.IndexGetP proofs.TagValsP.
-From TF Require gen.IndexGen.
+     proofs.DBStepP proofs.DBRunP proofs.DBSpecP proofs.GetterP proofs.LawsP IndexSem proofs.IndexGenP proofs.IndexGetP proofs.TagValsP DbSem proofs.DbGetGenP.
+From TF Require gen.IndexGen gen.DbGetGen.
 Import ListNotations.
 
 Theorem C07_len_exact : forall s, Inv s -> db_len s = (s, ONat (length (st_rows s))).
@@ -116,6 +116,26 @@ Theorem C07_source_index_tag_values_exact : forall g pts ks m, gwf g -> tne (_ta
   canon_tv (IndexGen.gen_get_tag_values g ks m) = scan_tag_values ks (in_meas m pts).
 Proof. exact source_tag_values_exact. Qed.
 
+(* the getters of class TinyFlux themselves - __len__, get_measurements, get_field_keys, get_tag_keys, get_field_values, get_timestamps - COMPILED from
+   tinyflux/database.py on every run (gen/DbGetGen.v, harness/py2coq_dbget.py: the database object as its stored rows and its index OBJECT, whose
+   methods are the ones compiled from index.py), BOTH paths - the index's answer when it is valid, the loop over storage with its measurement
+   filter otherwise - and the read_op decorator (DbSem.db_prelude) included, answer the specification on the stored rows in every state in which
+   a valid index object describes the rows (DInv; established by build, kept by the decorator: DInv_prelude) *)
+Theorem C07_source_db_invariant_kept_by_decorator : forall d, DInv d -> DInv (db_prelude d).
+Proof. exact DInv_prelude. Qed.
+Theorem C07_source_db_len_exact : forall d, DInv d -> DbGetGen.gen_db___len__ d = spec_len (db_rows d).
+Proof. exact source_db_len. Qed.
+Theorem C07_source_db_measurements_exact : forall d, DInv d -> DbGetGen.gen_db_get_measurements (db_prelude d) = spec_measurements (db_rows d).
+Proof. exact source_db_get_measurements. Qed.
+Theorem C07_source_db_field_keys_exact : forall d m, DInv d -> DbGetGen.gen_db_get_field_keys (db_prelude d) m = spec_field_keys m (db_rows d).
+Proof. exact source_db_get_field_keys. Qed.
+Theorem C07_source_db_tag_keys_exact : forall d m, DInv d -> DbGetGen.gen_db_get_tag_keys (db_prelude d) m = spec_tag_keys m (db_rows d).
+Proof. exact source_db_get_tag_keys. Qed.
+Theorem C07_source_db_field_values_exact : forall d k m, DInv d -> DbGetGen.gen_db_get_field_values (db_prelude d) k m = spec_field_values k m (db_rows d).
+Proof. exact source_db_get_field_values. Qed.
+Theorem C07_source_db_timestamps_exact : forall d m, DInv d -> DbGetGen.gen_db_get_timestamps (db_prelude d) m = spec_timestamps m (db_rows d).
+Proof. exact source_db_get_timestamps. Qed.
+
 Print Assumptions C07_source_index_len_is_the_model.
 Print Assumptions C07_source_index_valid_is_the_model.
 Print Assumptions C07_source_index_measurements_is_the_model.
@@ -132,3 +152,10 @@ Print Assumptions C07_source_index_tag_keys_exact.
 Print Assumptions C07_source_index_no_empty_tag_key.
 Print Assumptions C07_source_index_tag_values_is_the_model.
 Print Assumptions C07_source_index_tag_values_exact.
+Print Assumptions C07_source_db_invariant_kept_by_decorator.
+Print Assumptions C07_source_db_len_exact.
+Print Assumptions C07_source_db_measurements_exact.
+Print Assumptions C07_source_db_field_keys_exact.
+Print Assumptions C07_source_db_tag_keys_exact.
+Print Assumptions C07_source_db_field_values_exact.
+Print Assumptions C07_source_db_timestamps_exact.
